@@ -225,7 +225,10 @@ func (u *staticUpstream) From() string {
 }
 
 func (u *staticUpstream) NewHost(host string) (*UpstreamHost, error) {
-	if !strings.HasPrefix(host, "http") &&
+	// (a scheme-less host may be called httpd or http-api: only a real
+	// http:// or https:// scheme counts)
+	if !strings.HasPrefix(host, "http://") &&
+		!strings.HasPrefix(host, "https://") &&
 		!strings.HasPrefix(host, "unix:") &&
 		!strings.HasPrefix(host, "quic:") &&
 		!strings.HasPrefix(host, "srv://") &&
